@@ -1,0 +1,120 @@
+//go:build verif
+
+package metric
+
+// Contracts (Gobra-style, comment-only) for the CVSS v3 metrics objects of this package.
+// The file adds no declarations; it is read by /verif/govc only. Spec functions (v3_base_k, valid_v3_AV, w_v3_AV,
+// tenth, ...) are defined in /verif/spec; see /verif/DESIGN.md for the contract language.
+
+// ---------------------------------------------------------------------------------------------------------------
+// object invariants and validity predicates
+//
+// *Known  = what GetError tests (no field holds its unknown/invalid value)
+// *OK     = every field holds a value of the specification's table (implies *Known)
+
+//@ pred inv_v3Base(bm *Base) := bm.names != nil
+//@ pred inv_v3Temporal(tm *Temporal) := tm.Base != nil && inv_v3Base(tm.Base) && tm.names != nil && tm.names != tm.Base.names
+//@ pred inv_v3Env(em *Environmental) := em.Temporal != nil && inv_v3Temporal(em.Temporal) && em.names != nil
+//@      && em.names != em.Temporal.names && em.names != em.Temporal.Base.names
+
+//@ pred v3BaseKnown(bm *Base) := bm != nil && bm.Ver != VUnknown && bm.AV != AttackVectorUnknown && bm.AC != AttackComplexityUnknown
+//@      && bm.PR != PrivilegesRequiredUnknown && bm.UI != UserInteractionUnknown && bm.S != ScopeUnknown
+//@      && bm.C != ConfidentialityImpactUnknown && bm.I != IntegrityImpactUnknown && bm.A != AvailabilityImpactUnknown
+//@ pred v3BaseOK(bm *Base) := v3BaseKnown(bm) && valid_v3_VER(bm.Ver) && valid_v3_AV(bm.AV) && valid_v3_AC(bm.AC) && valid_v3_PR(bm.PR)
+//@      && valid_v3_UI(bm.UI) && valid_v3_S(bm.S) && valid_v3_C(bm.C) && valid_v3_I(bm.I) && valid_v3_A(bm.A)
+
+//@ pred v3TemporalKnown(tm *Temporal) := tm != nil && v3BaseKnown(tm.Base) && valid_v3_E(tm.E) && valid_v3_RL(tm.RL) && valid_v3_RC(tm.RC)
+//@ pred v3TemporalOK(tm *Temporal) := tm != nil && v3BaseOK(tm.Base) && valid_v3_E(tm.E) && valid_v3_RL(tm.RL) && valid_v3_RC(tm.RC)
+
+//@ pred v3EnvOnly(em *Environmental) := valid_v3_CR(em.CR) && valid_v3_IR(em.IR) && valid_v3_AR(em.AR) && valid_v3_MAV(em.MAV) && valid_v3_MAC(em.MAC)
+//@      && valid_v3_MPR(em.MPR) && valid_v3_MUI(em.MUI) && valid_v3_MS(em.MS) && valid_v3_MC(em.MC) && valid_v3_MI(em.MI) && valid_v3_MA(em.MA)
+//@ pred v3EnvKnown(em *Environmental) := em != nil && v3TemporalKnown(em.Temporal) && v3EnvOnly(em)
+//@ pred v3EnvOK(em *Environmental) := em != nil && v3TemporalOK(em.Temporal) && v3EnvOnly(em)
+
+// ---------------------------------------------------------------------------------------------------------------
+// Base
+
+//@ func (bm *Base) GetError() error
+//@   requires bm == nil || inv_v3Base(bm)
+//@   modifies nothing
+//@   ensures[C12] v3BaseKnown(bm) ==> result === nil
+//@   ensures[C12] !v3BaseKnown(bm) ==> result != nil
+//@   ensures[C11] bm == nil ==> is(result, ErrNoBaseMetrics)
+//@   ensures[C11] bm != nil && bm.Ver == VUnknown ==> is(result, ErrNotSupportVer)
+//@   ensures[C11] bm != nil && bm.Ver != VUnknown && !v3BaseKnown(bm) ==> is(result, ErrNoBaseMetrics)
+
+//@ func (bm *Base) Score() float64
+//@   requires bm == nil || inv_v3Base(bm)
+//@   modifies nothing
+//@   grid 0 100
+//@   ensures[C12] !v3BaseKnown(bm) ==> result === 0.0
+//@   ensures[C01,grid] v3BaseOK(bm) ==> result === tenth(v3_base_k(bm.AV, bm.AC, bm.PR, bm.UI, bm.S, bm.C, bm.I, bm.A))
+//@        && 0 <= v3_base_k(bm.AV, bm.AC, bm.PR, bm.UI, bm.S, bm.C, bm.I, bm.A) && v3_base_k(bm.AV, bm.AC, bm.PR, bm.UI, bm.S, bm.C, bm.I, bm.A) <= 100
+//@   ensures[C01] v3BaseOK(bm) ==> ((result == 0.0) <==> (bm.C == ConfidentialityImpactNone && bm.I == IntegrityImpactNone && bm.A == AvailabilityImpactNone))
+//@   ensures[C01] v3BaseOK(bm) ==> v3_base_k(bm.AV, bm.AC, bm.PR, bm.UI, bm.S, bm.C, bm.I, bm.A) == v3_base_k_appA(bm.AV, bm.AC, bm.PR, bm.UI, bm.S, bm.C, bm.I, bm.A)
+//@   family base[C01,grid] when v3BaseOK(bm): bm.Ver in v3.VER, bm.AV in v3.AV, bm.AC in v3.AC, bm.PR in v3.PR, bm.UI in v3.UI, bm.S in v3.S, bm.C in v3.C, bm.I in v3.I, bm.A in v3.A
+
+// ---------------------------------------------------------------------------------------------------------------
+// Temporal
+
+//@ func (tm *Temporal) GetError() error
+//@   requires tm == nil || inv_v3Temporal(tm)
+//@   modifies nothing
+//@   ensures[C12] v3TemporalKnown(tm) ==> result === nil
+//@   ensures[C12] !v3TemporalKnown(tm) ==> result != nil
+//@   ensures[C11] tm == nil ==> is(result, ErrNoTemporalMetrics)
+//@   ensures[C11] tm != nil && v3BaseKnown(tm.Base) && !v3TemporalKnown(tm) ==> is(result, ErrInvalidValue)
+
+// kb is the ghost integer with  Base.Score() === tenth(kb)  (Base.Score's [grid] postcondition); the temporal equation is
+// stated on that already rounded base score, as the specification and C02 demand.
+//@ func (tm *Temporal) Score() float64
+//@   requires tm == nil || inv_v3Temporal(tm)
+//@   modifies nothing
+//@   grid 0 100
+//@   ensures[C12] !v3TemporalKnown(tm) ==> result === 0.0
+//@   ensures[C02,grid] v3TemporalOK(tm) ==> result === tenth(v3_outer_k(kb, tm.E, tm.RL, tm.RC)) && 0 <= v3_outer_k(kb, tm.E, tm.RL, tm.RC) && v3_outer_k(kb, tm.E, tm.RL, tm.RC) <= kb
+//@   ensures[C02] v3TemporalOK(tm) ==> v3_outer_k(kb, tm.E, tm.RL, tm.RC) == v3_outer_k_appA(kb, tm.E, tm.RL, tm.RC)
+//@   ensures[C02] v3TemporalOK(tm) ==> (tm.E == ExploitabilityNotDefined && tm.RL == RemediationLevelNotDefined && tm.RC == ReportConfidenceNotDefined ==> result === tenth(kb))
+//@   family temporal[C02,grid] when v3TemporalOK(tm): tm.E in v3.E, tm.RL in v3.RL, tm.RC in v3.RC ; replace Base.Score#0 grid 0 100 as kb
+
+// ---------------------------------------------------------------------------------------------------------------
+// Environmental
+
+//@ func (em *Environmental) GetError() error
+//@   requires em == nil || inv_v3Env(em)
+//@   modifies nothing
+//@   ensures[C12] v3EnvKnown(em) ==> result === nil
+//@   ensures[C12] !v3EnvKnown(em) ==> result != nil
+//@   ensures[C11] em == nil ==> is(result, ErrNoEnvironmentalMetrics)
+
+// ki is the ghost integer of the inner Roundup: the first roundUp executed on a path returns tenth(ki) (family inner).
+//@ func (em *Environmental) Score() float64
+//@   requires em == nil || inv_v3Env(em)
+//@   modifies nothing
+//@   grid 0 100
+//@   ensures[C12] !v3EnvKnown(em) ==> result === 0.0
+//@   ensures[C03] v3EnvOK(em) ==> result === tenth(v3_env_k(em.Ver, eff_v3_AV(em.MAV, em.AV), eff_v3_AC(em.MAC, em.AC), eff_v3_PR(em.MPR, em.PR), eff_v3_UI(em.MUI, em.UI),
+//@        eff_v3_S(em.MS, em.S), eff_v3_C(em.MC, em.C), eff_v3_I(em.MI, em.I), eff_v3_A(em.MA, em.A), em.CR, em.IR, em.AR, em.E, em.RL, em.RC))
+//@   ensures[C03o,grid] v3EnvOK(em) ==> result === tenth(v3_outer_k(ki, em.E, em.RL, em.RC)) && 0 <= v3_outer_k(ki, em.E, em.RL, em.RC) && v3_outer_k(ki, em.E, em.RL, em.RC) <= 100
+//@   family inner[C03] when v3EnvOK(em): em.Ver in v3.VER, eff_v3_AV(em.MAV, em.AV) in v3.AV, eff_v3_AC(em.MAC, em.AC) in v3.AC, eff_v3_PR(em.MPR, em.PR) in v3.PR,
+//@        eff_v3_UI(em.MUI, em.UI) in v3.UI, eff_v3_S(em.MS, em.S) in v3.S, eff_v3_C(em.MC, em.C) in v3.C, eff_v3_I(em.MI, em.I) in v3.I, eff_v3_A(em.MA, em.A) in v3.A,
+//@        em.CR in v3.CR, em.IR in v3.IR, em.AR in v3.AR
+//@        ; stop roundUp#0 sat v3_env_impact(em.Ver, eff_v3_S(em.MS, em.S), eff_v3_C(em.MC, em.C), eff_v3_I(em.MI, em.I), eff_v3_A(em.MA, em.A), em.CR, em.IR, em.AR) > 0.0
+//@             && cutval === tenth(v3_env_inner_k(em.Ver, eff_v3_AV(em.MAV, em.AV), eff_v3_AC(em.MAC, em.AC), eff_v3_PR(em.MPR, em.PR), eff_v3_UI(em.MUI, em.UI),
+//@                  eff_v3_S(em.MS, em.S), eff_v3_C(em.MC, em.C), eff_v3_I(em.MI, em.I), eff_v3_A(em.MA, em.A), em.CR, em.IR, em.AR))
+//@             && 0 <= v3_env_inner_k(em.Ver, eff_v3_AV(em.MAV, em.AV), eff_v3_AC(em.MAC, em.AC), eff_v3_PR(em.MPR, em.PR), eff_v3_UI(em.MUI, em.UI),
+//@                  eff_v3_S(em.MS, em.S), eff_v3_C(em.MC, em.C), eff_v3_I(em.MI, em.I), eff_v3_A(em.MA, em.A), em.CR, em.IR, em.AR)
+//@             && v3_env_inner_k(em.Ver, eff_v3_AV(em.MAV, em.AV), eff_v3_AC(em.MAC, em.AC), eff_v3_PR(em.MPR, em.PR), eff_v3_UI(em.MUI, em.UI),
+//@                  eff_v3_S(em.MS, em.S), eff_v3_C(em.MC, em.C), eff_v3_I(em.MI, em.I), eff_v3_A(em.MA, em.A), em.CR, em.IR, em.AR) <= 100
+//@             && v3_env_inner_k(em.Ver, eff_v3_AV(em.MAV, em.AV), eff_v3_AC(em.MAC, em.AC), eff_v3_PR(em.MPR, em.PR), eff_v3_UI(em.MUI, em.UI),
+//@                  eff_v3_S(em.MS, em.S), eff_v3_C(em.MC, em.C), eff_v3_I(em.MI, em.I), eff_v3_A(em.MA, em.A), em.CR, em.IR, em.AR)
+//@                == v3_env_inner_k_appA(em.Ver, eff_v3_AV(em.MAV, em.AV), eff_v3_AC(em.MAC, em.AC), eff_v3_PR(em.MPR, em.PR), eff_v3_UI(em.MUI, em.UI),
+//@                  eff_v3_S(em.MS, em.S), eff_v3_C(em.MC, em.C), eff_v3_I(em.MI, em.I), eff_v3_A(em.MA, em.A), em.CR, em.IR, em.AR)
+//@   family outer[C03o,grid] when v3EnvOK(em): em.E in v3.E, em.RL in v3.RL, em.RC in v3.RC ; replace roundUp#0 grid 0 100 as ki
+
+// composition of the two stages (holds by unfolding the definition of v3_env_k)
+//@ lemma v3_env_compose[C03]: forall ver int, av int, ac int, pr int, ui int, s int, c int, i int, a int, cr int, ir int, ar int, e int, rl int, rc int ::
+//@        v3_env_impact(ver, s, c, i, a, cr, ir, ar) > 0.0 ==>
+//@        v3_env_k(ver, av, ac, pr, ui, s, c, i, a, cr, ir, ar, e, rl, rc) == v3_outer_k(v3_env_inner_k(ver, av, ac, pr, ui, s, c, i, a, cr, ir, ar), e, rl, rc)
+//@ lemma v3_temporal_compose[C02]: forall av int, ac int, pr int, ui int, s int, c int, i int, a int, e int, rl int, rc int ::
+//@        v3_temporal_k(av, ac, pr, ui, s, c, i, a, e, rl, rc) == v3_outer_k(v3_base_k(av, ac, pr, ui, s, c, i, a), e, rl, rc)
